@@ -12,6 +12,8 @@ structure St where
   cfg : Option Cfg
   /-- the window the *implementation* reported for its node (min, max), used by the monitor -/
   implWin : Option (Int × Int)
+  /-- steady deadline of the key-share record last published per chunk id (`publish_shards` sees it) -/
+  shards : List (String × Int) := []
 
 def int1 (f : Int → Int) (v : String) : String := match v.toInt? with | some x => toString (f x) | none => "bad-op"
 
@@ -40,7 +42,7 @@ def step (st : St) (tok : List String) (_line : String) (impl : Option String) :
             match C02Spec.configViolation (Ttl.limits ic) with
             | some why => (some (ic.min_manifest_ttl, ic.max_manifest_ttl), s!"viol:config:{why}")
             | none => (some (ic.min_manifest_ttl, ic.max_manifest_ttl), "ok")
-      ({ st with cfg := some c, implWin := win }, fmtCfg eff, verdict)
+      ({ st with cfg := some c, implWin := win, shards := [] }, fmtCfg eff, verdict)
   | ["rot", v] => (st, int1 sanitize_key_rotation_interval v, "ok")
   | ["smin", v] => (st, int1 sanitize_manifest_min v, "ok")
   | ["aint", v] => (st, int1 sanitize_announce_interval v, "ok")
@@ -67,10 +69,12 @@ def step (st : St) (tok : List String) (_line : String) (impl : Option String) :
     | some c, some t => (st, toString (Ttl.chunkStorePut (Ttl.effective c) t st.now - st.now), "ok")
     | none, _ => (st, "no-node", "ok")
     | _, _ => (st, "bad-op", "ok")
-  | ["store", _c, t] =>
+  | ["store", ck, t] =>
     match st.cfg, t.toInt? with
     | some c, some t =>
-      let d := Ttl.storeChunk c t st.now (st.now + st.off)
+      let prev := ((st.shards.find? fun p => p.1 == ck).map (·.2)).getD 0
+      let d := Ttl.storeChunk c t st.now (st.now + st.off) prev
+      let st := { st with shards := (st.shards.filter fun p => p.1 != ck) ++ [(ck, st.now + d.shard)] }
       let verdict := match impl, st.implWin with
         | some line, some (mn, mx) =>
           match parseStore (tokens line) with
@@ -92,8 +96,14 @@ def step (st : St) (tok : List String) (_line : String) (impl : Option String) :
         else match header with
           | some h => Ttl.controlStore c h
           | none => none
-      let out := match accepted with
-        | some t => "ok " ++ fmtStore (Ttl.storeChunk c t st.now (st.now + st.off))
+      -- every control STORE of the harness carries the same payload, hence the same chunk id
+      let prev := ((st.shards.find? fun p => p.1 == "#ctl").map (·.2)).getD 0
+      let stored := accepted.map fun t => Ttl.storeChunk c t st.now (st.now + st.off) prev
+      let st := match stored with
+        | some d => { st with shards := (st.shards.filter fun p => p.1 != "#ctl") ++ [("#ctl", st.now + d.shard)] }
+        | none => st
+      let out := match stored with
+        | some d => "ok " ++ fmtStore d
         | none => if hdr != "-" && header.isNone then "rej:ERR_STORE_TTL_INVALID" else "rej:ERR_STORE_TTL_OUT_OF_RANGE"
       -- monitor: an accepted STORE carries a TTL inside the window and records lifetimes inside it
       let verdict := match impl, st.implWin with
@@ -113,7 +123,7 @@ def step (st : St) (tok : List String) (_line : String) (impl : Option String) :
       (st, out, verdict)
   | _ => (st, "bad-op", "ok")
 
-def machine : Machine St := { init := ⟨vclockStart, defaultWallOffset, none, none⟩, step := step }
+def machine : Machine St := { init := ⟨vclockStart, defaultWallOffset, none, none, []⟩, step := step }
 
 end EphVerif.DriverC02
 
